@@ -3,6 +3,7 @@ Lemmas/GroupGlue.lean — helper lemmas for the leader-glue part of Props/C14.le
 -/
 import KafkaVerif.Model.GroupGlue
 import KafkaVerif.Spec.GroupAssign
+import KafkaVerif.Lemmas.GroupBalancer
 
 namespace KV.GroupGlue
 open KV.Spec.GroupAssign
@@ -276,5 +277,91 @@ theorem delivered_eq (ρ : TopicMap → TopicMap) (hρ : ∀ l, (ρ l).Perm l) (
     · simp [ht]
   · simp [hid]
 
+
+/-! ### makeAssignments -/
+
+theorem mapGet_foldInsert (f : Nat → List Int) (t : Nat) : ∀ (topics : List Nat) (acc : TopicMap),
+    mapGet t (topics.foldl (fun acc x => mapInsert x (f x) acc) acc) = if t ∈ topics then some (f t) else mapGet t acc
+  | [], acc => by simp
+  | x :: xs, acc => by
+    rw [List.foldl_cons, mapGet_foldInsert f t xs, mapGet_insert]
+    by_cases h1 : t ∈ xs
+    · simp [h1]
+    · by_cases h2 : x = t
+      · subst h2; simp [h1]
+      · have : ¬ t = x := fun e => h2 e.symm
+        simp [h1, h2, this]
+
+/-- `Generation.Assignments[t]` is what was received for `t` if the member is configured with `t`, nothing otherwise -/
+theorem generationView_eq (ρ : TopicMap → TopicMap) (A : Assignments) (id : Nat) (topics : List Nat) (t : Nat) :
+    generationView ρ A id topics t = if t ∈ topics then (mapGet t (received ρ A id)).getD [] else [] := by
+  unfold generationView makeAssignments
+  rw [mapGet_foldInsert (fun x => (mapGet x (received ρ A id)).getD []) t topics []]
+  by_cases h : t ∈ topics <;> simp [h, mapGet_nil]
+
+/-! ### extractTopics / readPartitions -/
+section Topics
+open KV.GroupBalancer
+
+theorem mem_insertNat (x y : Nat) : ∀ (l : List Nat), y ∈ insertNat x l ↔ y = x ∨ y ∈ l
+  | [] => by simp [insertNat]
+  | z :: zs => by
+    have ih := mem_insertNat x y zs
+    unfold insertNat
+    split
+    · simp
+    · simp only [List.mem_cons, ih]
+      constructor
+      · rintro (h | h | h) <;> simp [h]
+      · rintro (h | h | h) <;> simp [h]
+
+theorem mem_sortNat (y : Nat) : ∀ (l : List Nat), y ∈ sortNat l ↔ y ∈ l
+  | [] => by simp [sortNat]
+  | x :: xs => by
+    unfold sortNat
+    rw [mem_insertNat, mem_sortNat y xs]; simp
+
+theorem mem_firstListings (x : Nat) : ∀ (l pre : List Nat), x ∈ firstListings pre l ↔ x ∈ l ∧ ¬ x ∈ pre
+  | [], pre => by simp [firstListings]
+  | y :: ys, pre => by
+    have ih := mem_firstListings x ys (pre ++ [y])
+    unfold firstListings
+    by_cases hy : y ∈ pre
+    · simp only [hy, if_true, ih, List.mem_append, List.mem_cons, List.mem_singleton, List.not_mem_nil, or_false]
+      constructor
+      · rintro ⟨h1, h2⟩; exact ⟨Or.inr h1, fun h => h2 (Or.inl h)⟩
+      · rintro ⟨h1 | h1, h2⟩
+        · exact absurd (h1 ▸ hy) h2
+        · exact ⟨h1, fun h => h.elim h2 (fun e => h2 (e ▸ hy))⟩
+    · simp only [hy, if_false, List.mem_cons, ih, List.mem_append, List.mem_singleton, List.not_mem_nil, or_false]
+      constructor
+      · rintro (h | ⟨h1, h2⟩)
+        · exact ⟨Or.inl h, h ▸ hy⟩
+        · exact ⟨Or.inr h1, fun h => h2 (Or.inl h)⟩
+      · rintro ⟨h1 | h1, h2⟩
+        · exact Or.inl h1
+        · by_cases hxy : x = y
+          · exact Or.inl hxy
+          · exact Or.inr ⟨h1, fun h => h.elim h2 hxy⟩
+
+/-- the leader asks for exactly the topics somebody subscribes to -/
+theorem mem_extractTopics (ms : List Member) (t : Nat) : t ∈ extractTopics ms ↔ ∃ m ∈ ms, t ∈ m.topics := by
+  unfold extractTopics
+  rw [mem_sortNat, mem_firstListings]
+  simp [List.mem_flatMap]
+
+theorem readPartitions_reads (cluster : List Part) (topics : List Nat) :
+    ReadsTopics cluster topics (readPartitions cluster topics) := by
+  intro t ht
+  unfold readPartitions partsOf ledIn
+  refine ⟨?_, fun z => ?_⟩ <;>
+  · rw [List.filter_filter]
+    congr 1
+    apply List.filter_congr
+    intro p _
+    by_cases hp : p.topic = t
+    · simp [hp, ht]
+    · simp [hp]
+end Topics
 
 end KV.GroupGlue
